@@ -16,8 +16,8 @@ import FP.Proofs.FlowDecompExists
 Objects (all mirrored from the code and tied to it by the harness):
 `kfdcLP inp given` — the MILP of `kFlowDecompCycles.__init__` for the user's digraph `inp.base` with flow
 `inp.f`, `k = inp.k` layers, safety optimisations off (K2: LP-dump equality with the real constructor);
-`kfdcCap inp e` — `edge_upper_bounds[e]` (own flow value inside an SCC, `w_max` without the attribute,
-`1` outside SCCs); `decodeWalkLayer` — `get_solution_walks` (C14/C01);
+`kfdcCap inp e` — `edge_upper_bounds[e]` (floor of the own flow value inside an SCC — floored since fix
+fcfd0b0, so always an integer: `kfdc_cap_int` —, floor of `w_max` without the attribute, `1` outside SCCs); `decodeWalkLayer` — `get_solution_walks` (C14/C01);
 `stopSearchTimed` — the k-loop of `MinFlowDecompCycles.solve` (K3 traces, C13).
 
 * T1 `kfdc_exact`       — every satisfying assignment decodes to walks and weights explaining every
@@ -27,13 +27,14 @@ Objects (all mirrored from the code and tied to it by the harness):
                           the caps extends to a satisfying assignment (any `w_max`, natural or fractional);
      `walk_has_conn_witness` — every source-to-sink walk has such witnesses;
      `kfdc_complete_walks`   — the two combined, for walks.
-* T3 `cap_adequate_int` — with weights ≥ 1 a walk runs through `e` at most `f e` times;
+* T3 `cap_adequate_int`, `cap_adequate_floor` — with weights ≥ 1 a walk runs through `e` at most `f e`, hence
+                          at most `floor(f e)` times;
      `cap_adequate_min_weight` — with weights ≥ δ at most `f e / δ` times (soundness of the proposed repair).
-* T4 `scale_law_counterexample` — the cap is not scale invariant (self-loop instance, flows 1 vs 1/2).
      `nonScc_once`, `caps_are_flows`, `within_of_int` — a walk runs through an edge outside the SCCs at
                           most once (the model's iterated-closure reachability is sound and complete),
                           so families with weights ≥ 1 meet all caps by themselves.
-* T4 `scale_law_counterexample` — the cap is not scale invariant (self-loop instance, flows 1 vs 1/2).
+* T4 `scale_law_counterexample` — the cap is not scale invariant (self-loop instance, flows 1 vs 1/2:
+                          caps `1` vs `floor(1/2) = 0`, `scale_law_cap_violated`).
 * T5 `mfdc_search_minimal`, `mfdc_search_finds`, `mfdc_min_walks`, `mfdc_minimum_int` — the search
                           returns the least feasible k; no decomposition with weights ≥ 1 has fewer walks.
 
@@ -82,10 +83,16 @@ theorem intProdQ_sound (a : Asg) (n c p : Var) (lb ub : Rat) (name : String)
     (hc : lb ≤ a c ∧ a c ≤ ub) (h : Sat a (intProdQ n c p lb ub name)) : a p = a n * a c :=
   FP.intProdQ_sound a n c p lb ub name hc h
 
-/-- the repetition cap of an edge of the augmented graph -/
+/-- the repetition cap of an edge of the augmented graph: inside an SCC the floor (since fix fcfd0b0) of
+the edge's own flow value (`w_max` without the attribute), `1` outside -/
 theorem kfdc_cap (inp : WalkInput) (e : Edge) (he : e ∈ inp.st.g.edges) :
-    kfdcCap inp e = if isSccEdge inp.st.g e then (inp.fOpt e).getD (inp.wmax false) else 1 :=
+    kfdcCap inp e = if isSccEdge inp.st.g e
+      then ((((inp.fOpt e).getD (inp.wmax false)).floor : Int) : Rat) else 1 :=
   FP.kfdcCap_eq inp e he
+
+/-- … an integer in every case (since fix fcfd0b0) -/
+theorem kfdc_cap_int (inp : WalkInput) (e : Edge) : ∃ z : Int, kfdcCap inp e = (z : Rat) :=
+  FP.kfdcCap_int inp e
 
 /-- **T1.** For every satisfying assignment of the `kFlowDecompCycles` LP (with or without given
 weights) on a well-formed user digraph: the weights lie in `[0, w_max]` (integral for
@@ -153,15 +160,22 @@ theorem kfdc_complete_walks (inp : WalkInput) (walk : Nat → List Node) (w : Na
 theorem satCheck_sound (a : Asg) (lp : LP) (h : satCheck a lp = true) : Sat a lp :=
   FP.satCheck_sound a lp h
 
-/-! ## T3: the cap `f e` is adequate for integer weights -/
+/-! ## T3: the cap `floor(f e)` is adequate for weights ≥ 1 -/
 
 /-- **T3.** In a decomposition with non-negative weights, a walk of weight at least `1` (any positive
-integer) runs through `e` at most `f e` times: the cap `edge_upper_bounds[e] = f e` excludes no
-integer-weighted decomposition. -/
+integer) runs through `e` at most `f e` times … -/
 theorem cap_adequate_int (k : Nat) (m : Nat → Edge → Nat) (w : Nat → Rat) (fe : Rat) (e : Edge)
     (hw0 : ∀ j, j < k → 0 ≤ w j) (hdec : explainedM k m w e = fe)
     (i : Nat) (hi : i < k) (hw : 1 ≤ w i) : (m i e : Rat) ≤ fe :=
   FP.cap_adequate_int_proof k m w fe e hw0 hdec i hi hw
+
+/-- … hence, the count being a natural number, at most `floor(f e)` times: the cap
+`edge_upper_bounds[e] = floor(f e)` (floored since fix fcfd0b0) excludes no decomposition with weights
+`≥ 1`, in particular no integer-weighted one. -/
+theorem cap_adequate_floor (k : Nat) (m : Nat → Edge → Nat) (w : Nat → Rat) (fe : Rat) (e : Edge)
+    (hw0 : ∀ j, j < k → 0 ≤ w j) (hdec : explainedM k m w e = fe)
+    (i : Nat) (hi : i < k) (hw : 1 ≤ w i) : (m i e : Rat) ≤ ((fe.floor : Int) : Rat) :=
+  FP.cap_adequate_floor_proof k m w fe e hw0 hdec i hi hw
 
 /-- the same with a minimum weight `δ > 0`: at most `f e / δ` traversals (the bound behind the proposed
 repair `cap e = ⌈f e / δ⌉` with `δ` the smallest weight a walk may have) -/
@@ -183,8 +197,8 @@ theorem nonScc_once (g : Graph) (hcl : ∀ e ∈ g.edges, e.1 ∈ g.nodes ∧ e.
   FP.nonScc_once_proof g hcl L hW e he hscc
 
 /-- on a plain flow instance (nothing ignored, every edge of the user's graph carries its flow value)
-every SCC edge is a non-ignored edge whose cap is its own flow value; the synthetic edges are never SCC
-edges -/
+every SCC edge is a non-ignored edge whose cap is the floor of its own flow value (`CapsAreFlows`; floored
+since fix fcfd0b0); the synthetic edges are never SCC edges -/
 theorem caps_are_flows (inp : WalkInput) (hb : BaseWF inp.base) (hign : inp.ignore = [])
     (hattr : ∀ e ∈ inp.base.edges, ∃ q, inp.fOpt e = some q) : CapsAreFlows inp :=
   FP.caps_are_flows inp hb hign hattr
@@ -217,13 +231,17 @@ theorem scale_law_counterexample :
   ⟨⟨_, ScaleWitness.loop_unscaled_feasible⟩, ScaleWitness.loop_scaled_infeasible,
     ScaleWitness.loop_scaled_decomposition⟩
 
-/-- the column bound that the intended solution of the scaled instance violates: the loop's cap is its
-scaled flow value `1/2`, the walk runs through the loop once -/
+/-- the column bound that the intended solution of the scaled instance violates: the loop's cap is the
+floor of its flow value `c` (since fix fcfd0b0; the raw value `c` before) — `1` on the unscaled instance,
+`floor(1/2) = 0` on the scaled one —, the walk runs through the loop once -/
 theorem scale_law_cap_violated :
-    kfdcCap (ScaleWitness.inp (1/2) 1) ("a", "a") = 1/2 ∧
+    (∀ (c : Rat) (k : Nat), kfdcCap (ScaleWitness.inp c k) ("a", "a") = ((c.floor : Int) : Rat)) ∧
+    kfdcCap (ScaleWitness.inp 1 1) ("a", "a") = 1 ∧
+    kfdcCap (ScaleWitness.inp (1/2) 1) ("a", "a") = 0 ∧
     kfdcCap (ScaleWitness.inp (1/2) 1) ("a", "a")
       < (traversals ["source", "s", "a", "a", "t", "sink"] ("a", "a") : Rat) :=
-  ⟨ScaleWitness.loop_cap _ _, ScaleWitness.loop_scaled_cap_violated⟩
+  ⟨ScaleWitness.loop_cap, by rw [ScaleWitness.loop_cap]; decide +kernel, ScaleWitness.loop_cap_half 1,
+    ScaleWitness.loop_scaled_cap_violated⟩
 
 /-! ## T5: the search -/
 
@@ -263,7 +281,7 @@ theorem mfdc_min_walks (inp : WalkInput) (σ : Nat → Status) (late : Nat → B
 bound, the returned `k` is at most the number `j` of walks of *any* family of source-to-sink walks with
 weights `≥ 1` (integral for `weight_type=int`) that decomposes the flow and covers the subset
 constraints. Side conditions on `j`: product blocks with distinct names, weights and flow values at most
-`w_max = j·max flow` (true for positive integer flows), caps = flow values (`caps_are_flows`). -/
+`w_max = j·max flow` (true for positive integer flows), caps = floored flow values (`caps_are_flows`). -/
 theorem mfdc_minimum_int (inp : WalkInput) (σ : Nat → Status) (late : Nat → Bool) (lo hi k : Nat)
     (hb : BaseWF inp.base) (hcaps : ∀ j, CapsAreFlows (inp.withK j)) (hσ : FaithfulC inp σ)
     (hlo : ∀ j, j < lo → ¬ KfdcFeasible inp j)
